@@ -230,10 +230,25 @@ def opaque_number_text():
 
     _orig_format = core._PATCH_REGISTRATIONS[builtins.format]
 
+    def _has_sym(o, depth=0):
+        if isinstance(o, bl.SymbolicNumberAble):
+            return True
+        if depth > 3:
+            return False
+        import collections.abc as cabc
+
+        if isinstance(o, cabc.Mapping):
+            return any(_has_sym(v, depth + 1) for v in o.values())
+        if isinstance(o, (list, tuple, cabc.Sequence)) and not isinstance(o, (str, bytes)):
+            return any(_has_sym(v, depth + 1) for v in o)
+        return False
+
     def _format(obj, format_spec=""):
         with NoTracing():
             if isinstance(obj, bl.SymbolicNumberAble):
                 return "<sym>"
+            if not isinstance(obj, (str, bytes, int, float)) and _has_sym(obj):
+                return "<container with symbolic numbers>"
         return _orig_format(obj, format_spec)
 
     core._PATCH_REGISTRATIONS[builtins.format] = _format
